@@ -414,6 +414,35 @@ def special_shapes():
     out.append(('union_of_union', mk_struct('Zuu', [('p', 'plain', scalar('u8')), ('u', 'plain', U2), ('q', 'plain', scalar('u8'))])))
     Pn = mk_struct('Zpn', [('m', 'plain', P), ('f', ('fixed', 2), scalar('u16')), ('w', 'plain', U1)])
     out.append(('dyn_nested_fixed', mk_struct('Zdn', [('x', 'dyn', Pn), ('l', ('limited', 2), Pn)])))
+    # arrays of enums of every kind (names as well as numbers are accepted and normalised by every array operation)
+    En = mk_enum('Zen', [('Zen_A', 1), ('Zen_B', 7), ('Zen_C', 65536)])
+    out.append(('enum_dyn_only', mk_struct('Zed', [('d', 'dyn', En)])))
+    out.append(('enum_arrays', mk_struct('Zea', [('f', ('fixed', 2), En), ('l', ('limited', 3), En), ('o', 'opt', En), ('d', 'dyn', En)])))
+    # unions whose largest arm is NOT a multiple of the union's alignment: an 8-aligned arm next to a struct arm of
+    # 12 / 20 bytes (alignment 4), of 9 bytes (alignment 1) and of 10 bytes (alignment 2); as a plain member with a
+    # tail, as an optional, in a dynamic array and in a limited array
+    T12 = mk_struct('Zt12', [('a', 'plain', scalar('u32')), ('b', 'plain', scalar('u32')), ('c', 'plain', scalar('u32'))])
+    T20 = mk_struct('Zt20', [('a', ('fixed', 5), scalar('u32'))])
+    T9 = mk_struct('Zt9', [('a', ('fixed', 9), scalar('u8'))])
+    T10 = mk_struct('Zt10', [('a', ('fixed', 5), scalar('u16'))])
+    for nm_, arm in (('12', T12), ('20', T20), ('9', T9), ('10', T10)):
+        U = mk_union('Zua' + nm_, [(1, 'big', scalar('u64')), (2, 's', arm)])
+        out.append(('union_arm_%s' % nm_, mk_struct('Zum' + nm_, [('u', 'plain', U), ('t', 'plain', scalar('u32'))])))
+        out.append(('union_arm_%s_arr' % nm_, mk_struct('Zux' + nm_, [('h', 'plain', scalar('u8')), ('o', 'opt', U), ('x', 'dyn', U),
+                                                                        ('l', ('limited', 2), U)])))
+    U4 = mk_union('Zua4', [(1, 'd', scalar('r64')), (7, 's', T12), (9, 'e', scalar('u8'))])
+    out.append(('union_arm_three', mk_struct('Zum3', [('k', 'plain', scalar('u16')), ('u', 'plain', U4), ('t', 'plain', scalar('u8'))])))
+    # a struct that ends with an unlimited STRUCT member (no other dynamic member) after a static part that is not a
+    # multiple of the struct's alignment; also one level deeper and with an 8-aligned head
+    I16 = mk_struct('Zin16', [('x', 'greedy', scalar('u16'))])
+    I8 = mk_struct('Zin8', [('k', 'plain', scalar('u8')), ('x', 'greedy', scalar('u8'))])
+    I64 = mk_struct('Zin64', [('x', 'greedy', scalar('u64'))])
+    O1 = mk_struct('Zou1', [('a', 'plain', scalar('u32')), ('c', 'plain', scalar('u8')), ('b', 'plain', I16)])
+    out.append(('unl_struct_tail', O1))
+    out.append(('unl_struct_tail8', mk_struct('Zou2', [('a', 'plain', scalar('u64')), ('c', 'plain', scalar('u8')), ('b', 'plain', I8)])))
+    out.append(('unl_struct_tail64', mk_struct('Zou3', [('c', 'plain', scalar('u8')), ('o', 'opt', scalar('u16')), ('b', 'plain', I64)])))
+    out.append(('unl_struct_tail_deep', mk_struct('Zou4', [('h', 'plain', scalar('u16')), ('c', 'plain', scalar('u8')), ('m', 'plain', O1)])))
+    out.append(('unl_struct_tail_dyn', mk_struct('Zou5', [('d', 'dyn', scalar('u8')), ('c', 'plain', scalar('u8')), ('b', 'plain', I16)])))
     return out
 
 
